@@ -70,6 +70,7 @@ pub enum Op {
     Rescramble(u64),
     /// calls that must be rejected by an unwinding panic leaving the contents unchanged:
     /// 0 get(len+k) 1 set(len+k) 2 set(value too wide) 3 iter_from(len+1+k) 4 push(too wide) 5 resize(too wide) 6 atomic get/set out of range
+    /// 7 (bit vectors) the indexing operator v[len+k]
     Reject { kind: u8, k: usize },
 }
 
@@ -361,7 +362,7 @@ fn gen_op(prop: &str, rng: &mut Rng, is_bv: bool, growable: bool, raw: bool, big
         }
         23 if raw => Op::Rescramble(rng.next_u64()),
         24 => {
-            let kind = if is_bv { *rng.pick(&[0u8, 1, 6]) } else { rng.below(7) as u8 };
+            let kind = if is_bv { *rng.pick(&[0u8, 1, 6, 7]) } else { rng.below(7) as u8 };
             if !growable && (kind == 4 || kind == 5) {
                 return None;
             }
@@ -375,6 +376,76 @@ fn gen_op(prop: &str, rng: &mut Rng, is_bv: bool, growable: bool, raw: bool, big
         }
         _ => return None,
     })
+}
+
+/// The `Iterator` protocol on an iterator of the crate, beyond a plain `collect`: what `count`, `last`,
+/// `nth`, `skip`, `step_by` and `size_hint` report from the start and after a partial consumption must be
+/// what the same calls report on the model slice. `mk` makes a fresh iterator; `salt` selects the script.
+pub fn iter_protocol<T: PartialEq + Copy + std::fmt::Debug, I: Iterator<Item = T>>(mk: impl Fn() -> I, want: &[T], salt: usize, exact: bool) -> Option<String> {
+    let n = want.len();
+    let c = mk().count();
+    if c != n {
+        return Some(format!("count() = {c}, expected {n}"));
+    }
+    let l = mk().last();
+    if l != want.last().copied() {
+        return Some(format!("last() = {l:?}, expected {:?}", want.last()));
+    }
+    let hint = |it: &I, consumed: usize, what: &str| -> Option<String> {
+        let rem = n.saturating_sub(consumed);
+        let (lo, hi) = it.size_hint();
+        if exact && (lo, hi) != (rem, Some(rem)) {
+            return Some(format!("size_hint() {what} = ({lo}, {hi:?}), expected ({rem}, Some({rem}))"));
+        }
+        if lo > rem || hi.map(|h| h < rem).unwrap_or(false) {
+            return Some(format!("size_hint() {what} = ({lo}, {hi:?}) excludes the {rem} remaining items"));
+        }
+        None
+    };
+    let mut it = mk();
+    if let Some(e) = hint(&it, 0, "of a fresh iterator") {
+        return Some(e);
+    }
+    let a = (salt % 4).min(n);
+    for (i, w) in want.iter().enumerate().take(a) {
+        let g = it.next();
+        if g != Some(*w) {
+            return Some(format!("item {i} = {g:?}, expected {w:?}"));
+        }
+    }
+    if let Some(e) = hint(&it, a, &format!("after {a} next()")) {
+        return Some(e);
+    }
+    let j = (salt / 4) % 5;
+    let g = it.nth(j);
+    if g != want.get(a + j).copied() {
+        return Some(format!("after {a} next(): nth({j}) = {g:?}, expected {:?}", want.get(a + j)));
+    }
+    let consumed = (a + j + 1).min(n);
+    if g.is_some() {
+        if let Some(e) = hint(&it, consumed, &format!("after {a} next() and nth({j})")) {
+            return Some(e);
+        }
+        let rest: Vec<T> = it.collect();
+        if rest != want[consumed..] {
+            return Some(format!("after {a} next() and nth({j}): {} more items, expected the {} items from {consumed}", rest.len(), n - consumed));
+        }
+    }
+    let sk = salt % 7;
+    let got: Vec<T> = mk().skip(sk).collect();
+    if got != want[sk.min(n)..] {
+        return Some(format!("skip({sk}) yields {} items, expected {}", got.len(), n - sk.min(n)));
+    }
+    let st = 1 + salt % 3;
+    let got: Vec<T> = mk().step_by(st).collect();
+    let exp: Vec<T> = want.iter().copied().step_by(st).collect();
+    if got != exp {
+        return Some(format!("step_by({st}) yields {} items (first difference at {:?}), expected {}", got.len(), got.iter().zip(&exp).position(|(x, y)| x != y), exp.len()));
+    }
+    if mk().nth(n).is_some() {
+        return Some(format!("nth({n}) on {n} items is Some"));
+    }
+    None
 }
 
 fn gcd(a: usize, b: usize) -> usize {
